@@ -45,9 +45,13 @@ ASSUMPTIONS = [
     'there: consistent FRU / SEL / SDR storage, the HPM action and status query succeed fault-free); primitives '
     '(send_message, raw_command hand the code to the caller) and transport operations (open, close, '
     'is_ipmc_accessible, wait_until_ipmb_is_accessible exchange no IPMI message) are listed with that reason',
-    'get_sel_entry: the theorems admit at most 16 answers CAh per fault set (the 17th makes the pinned code issue '
-    'zero-length reads for ever: liveness, outside this property; the model saturates where Python goes negative); '
-    'get_and_clear_sel_entry: any finite fault set, the model given more rounds than the last fault position',
+    'get_sel_entry / get_and_clear_sel_entry: the theorems (SelFaults, GacFaults) admit EVERY fault set on a source whose '
+    'get_sel_entry gives up with RetryError once the request length 1 has been refused and whose get-and-clear runs on a retry '
+    'budget (the source as it is now: Props.C13.source_variant; fault scripts with 17 and more answers CAh / more C5h than the '
+    'budget are compared with the model).  On a source WITHOUT that floor / budget (the pinned one) they admit at most 16 '
+    'answers CAh and faults below a position the fuel exceeds, and scripts beyond that are not generated: there the code does '
+    'not end (C13:get_sel_entry:unbounded-after-CAh, C13:get_and_clear_sel_entry:unbounded-after-C5h - C13\'s clause, not a '
+    'completion code lost) and this model saturates max_req_len at 0 where Python goes negative',
     'the BMC is a fixed script (answers depend on the request only); a faulted answer is the bare code '
     '(sampled: code followed by the OK payload)',
     'SDR reads: the scripted BMC grants ONE reservation id for ever and the models sdrData / sdrEntries carry one reservation '
@@ -932,19 +936,26 @@ def _op_models(ctx, sw, drv, rng):
         return ','.join('%d:%s' % (_attr(x, 'next_id'), _hex_of(_attr(x, 'data'))) for x in val) if val else '-'
 
     CA, C5 = 0xCA, 0xC5
+    sel_consts = api.loop_consts()['sel']
+    has_floor, budget = sel_consts.get('floor') is not None, sel_consts.get('budget')
+    ctx.extra['sel_loops'] = {'max_req_len_floor': sel_consts.get('floor'), 'get_and_clear_retry_default': budget}
     plan = [
         # label, op, recipe index, driver line prefix, value printer, directed fault scripts
         ('sel-entry', 'get_sel_entry', 0, 'selentry %s %d 1' % (dev, recipes('get_sel_entry')[0].get('reservation', 0)), v_entry,
          [[(i, CA) for i in range(m)] for m in range(2, 17)] +
+         # beyond the 16 lengths below FFh (judged by the model only where the source gives up with RetryError)
+         [[(i, CA) for i in range(m)] for m in (17, 18, 25)] + [[(i, CA) for i in range(1, 18)]] +
          [[(i, CA) for i in range(m)] + [(m, 0xD5)] for m in (1, 3, 16)] +
          [[(0, CA), (2, CA), (3, 0xC1)], [(1, CA), (2, CA)], [(0, CA), (1, 0xCB), (2, CA)]]),
         ('sel-entries', 'sel_entries', 0, 'selentries %s 100' % dev, v_entries,
          [[(2, CA), (3, CA)], [(2, CA), (4, CA), (5, CA)], [(3, CA), (4, 0xCB)], [(2, CA), (3, CA), (4, CA), (6, 0xC5)]]),
         ('sel-entries-list', 'get_sel_entries', 0, 'selentries %s 100' % dev, v_entries, [[(3, CA), (4, CA)]]),
-        ('get-and-clear', 'get_and_clear_sel_entry', 0, 'getclear %s 1 60' % dev, v_obj,
+        ('get-and-clear', 'get_and_clear_sel_entry', 0, 'getclear %s 1 %d' % (dev, 60 if budget is None else budget), v_obj,
          [[(1, C5)], [(2, C5)], [(1, C5), (3, C5)], [(1, C5), (4, C5)], [(2, C5), (5, C5)], [(1, C5), (3, C5), (5, C5)],
           [(1, CA), (3, C5)], [(1, CA), (2, C5), (4, CA), (6, C5)], [(1, C5), (2, 0xD5)], [(0, C5)],
-          [(1, C5), (3, C5), (5, C5), (7, C5), (9, C5), (11, C5)]]),
+          [(1, C5), (3, C5), (5, C5), (7, C5), (9, C5), (11, C5)],
+          [(1, C5), (3, C5), (5, C5), (7, C5)], [(1, C5), (3, C5), (5, C5), (7, C5), (9, C5)],
+          [(2, C5), (5, C5), (8, C5), (11, C5), (14, C5)], [(1, C5), (3, CA), (4, CA), (6, C5), (8, C5), (10, C5), (12, C5)]]),
     ]
     # SDR reads with a caller reservation: a foreign id (772) and the id the BMC grants (the hypothesis `hgiven` of
     # script_get_sdr_multi_safe).  The model carries ONE reservation id through a record; with a foreign id the requests
@@ -979,8 +990,8 @@ def _op_models(ctx, sw, drv, rng):
             fsets.append([(k, rng.choice([CA, CA, C5, 0xC3, 0xCE, 0xCB, 0xC1, rng.choice(codes)])) for k in ks])
         for fs in fsets:
             if op == 'get_sel_entry' or 'sel_entries' in op or op == 'get_and_clear_sel_entry':
-                if sum(1 for (_, c) in fs if c == CA) > 16:
-                    continue        # outside the model: Python's request length goes below zero
+                if not has_floor and sum(1 for (_, c) in fs if c == CA) > 16:
+                    continue        # a source without floor: Python's request length goes below zero, the read never ends
             if label in ('sdr-repo-1', 'sdr-dev-1') and any(c == C5 for (_, c) in fs):
                 ctx.count('op-model:foreign-reservation+C5h (run with the BMC id instead)')
                 continue            # see above: recipe 2 runs the same scripts with the id the BMC grants
